@@ -22,7 +22,7 @@ def payload(t, lo=1, hi=6, no_space=False, avoid='', frags=None):
 
 def hostile(t, frags=None):
     """One Markdown snippet that puts a payload where the renderer writes an attribute or escaped text."""
-    k = t.below(12)
+    k = t.below(13)
     p1 = payload(t, no_space=True, frags=frags)
     p2 = payload(t, frags=frags)
     p3 = payload(t, frags=frags)
@@ -53,6 +53,10 @@ def hostile(t, frags=None):
         return '`%s` and ``%s``' % (p2, p3)
     if k == 10:
         return '| %s | b |\n|:--|--:|\n| %s | [x](%s) |' % (p2, p3, p1)
+    if k == 12:
+        # one payload in a verbatim context and in escaped contexts: a result remembered per string must not cross over
+        q = p2.replace('`', '').replace('\n', ' ').strip() or 'a_b'
+        return '`%s` %s **%s**\n\n# %s\n\n`%s`' % (q, q, q, q, q)
     return '%s *%s* **%s** ~~%s~~\n# %s' % (p2, p3, p1, p2, p3)
 
 
